@@ -494,13 +494,19 @@ def new_project(root):
 
 
 def run_calls(R, project, text, positions, filename, case, apis=('assist', 'location'), do_lint=True):
+    slow = 0
     if do_lint:
-        R.call('lint', project, text, None, filename, case, parse_info(text, filename or '<string>'))
+        slow += R.call('lint', project, text, None, filename, case, parse_info(text, filename or '<string>')) == 'timeout'
     for pos in positions:
         pos = clamp_pos(text, pos)
         pinfo = parse_info(marked_text(text, pos), filename or '<string>')
         for api in apis:
-            R.call(api, project, text, pos, filename, case, pinfo)
+            slow += R.call(api, project, text, pos, filename, case, pinfo) == 'timeout'
+        if slow >= 2:
+            # two calls on this text already exceeded the deadline: recorded as failures, do not
+            # spend the deadline again on every remaining position
+            R.h('outcome', 'text abandoned after 2 time-outs')
+            break
 
 
 def job_file(R, job, tmp):
@@ -726,6 +732,8 @@ class ProgGen(object):
         if k < 0.2:
             return [p + '%s = %s = %s' % (self.target(1), self.target(1), self.expr())]
         if k < 0.24:
+            if r.random() < 0.15:
+                return [p + 'type %s%s = %s' % (r.choice(['X', 'A', 'a']), r.choice(['', '[T]', '[T: %s]' % self.name()]), self.expr())]
             return [p + r.choice(['%s += %s', '%s: int = %s', '%s: %s']) % (r.choice(['a', 'x', 'self.a', 'a[0]']), self.expr())]
         if k < 0.32:
             return [p + self.expr()]
@@ -771,8 +779,10 @@ class ProgGen(object):
         if k < 0.9:
             deco = [p + '@%s' % r.choice(['property', 'staticmethod', 'classmethod', self.expr(2), 'a.setter'])] if r.random() < 0.3 else []
             args = r.choice(['', 'self', 'self, a', 'a, b=x', '*a, **k', 'a, /, b', 'self, *, k=a', 'a: x = 1', 'cls'])
-            return deco + [p + '%sdef %s(%s)%s:' % (r.choice(['', '', '', 'async ']), r.choice(['f', 'g', 'a', 'x', 'A']), args,
-                                                    r.choice(['', '', ' -> %s' % self.name()]))] + self.block(ind + 1, depth + 1)
+            tps = r.choice(['', '', '', '', '[T]', '[T: %s]' % self.name(), '[T: (%s, %s)]' % (self.name(), self.expr(2)), '[*Ts, **P]',
+                            '[T: %s.%s, U]' % (self.name(), r.choice(self.ATTRS))])
+            return deco + [p + '%sdef %s%s(%s)%s:' % (r.choice(['', '', '', 'async ']), r.choice(['f', 'g', 'a', 'x', 'A']), tps, args,
+                                                      r.choice(['', '', ' -> %s' % self.name()]))] + self.block(ind + 1, depth + 1)
         if k < 0.97:
             bases = ', '.join(r.choice(['A', 'B', 'C', 'object', 'a', 'x', 'm1.A', 'f()', 'os', 'metaclass=%s' % self.name()])
                               for _ in range(r.randint(0, 2)))
@@ -792,12 +802,74 @@ class ProgGen(object):
                     '%s = sorted(%s, key=lambda self: self.%s)' % (at2, self.name(), at),
                     '%s = lambda self=%s: self.%s' % (at2, self.name(), at),
                     '%s = lambda: lambda self: self.%s' % (at2, at)]))
-            return [p + 'class %s%s:' % (r.choice(['A', 'B', 'C', 'a']), '(%s)' % bases if bases or r.random() < 0.2 else '')] + body
+            tps = r.choice(['', '', '', '', '', '[T]', '[T: %s]' % self.name(), '[T: (%s, %s), *Ts]' % (self.name(), self.name())])
+            return [p + 'class %s%s%s:' % (r.choice(['A', 'B', 'C', 'a']), tps, '(%s)' % bases if bases or r.random() < 0.2 else '')] + body
         return [p + 'match %s:' % self.name(), p + '    case %s:' % r.choice(['[a, b]', '{"k": x}', 'A(a=y)', 'x if x else y', '_', 'a.b']),
                 p + '        ' + self.expr()]
 
     def module(self, n=None):
         return '\n'.join(self.block(0, 0, n or self.r.randint(2, 7))) + '\n'
+
+
+def gen_nested_loops(rng, depth=None):
+    """depth nested for/while loops whose bodies start with a few branching statements that carry
+    names from level to level (if/else, if/elif, try/except, with, comprehension), a use of every
+    level's names after the innermost loop and after each loop, and a final read."""
+    depth = depth or rng.randint(3, 6)
+    out = ['x0 = [[]]']
+    for i in range(depth):
+        ind = '    ' * i
+        if rng.random() < 0.7:
+            out.append(ind + 'for i%d in x%d:' % (i, i))
+        else:
+            out.append(ind + 'while x%d:' % i)
+            out.append(ind + '    i%d = x%d' % (i, i))
+        for _ in range(rng.randint(1, 3)):
+            k = rng.random()
+            b = ind + '    '
+            if k < 0.5:
+                out += [b + 'if x%d:' % i, b + '    x%d = i%d' % (i + 1, i), b + 'else:', b + '    x%d = x%d' % (i + 1, i)]
+            elif k < 0.65:
+                out += [b + 'if i%d:' % i, b + '    x%d = i%d' % (i + 1, i), b + 'elif x%d:' % i, b + '    x%d = x%d' % (i + 1, i),
+                        b + 'else:', b + '    x%d = y%d = 0' % (i + 1, i)]
+            elif k < 0.8:
+                out += [b + 'try:', b + '    x%d = i%d.a' % (i + 1, i), b + 'except E as e%d:' % i, b + '    x%d = x%d' % (i + 1, i)]
+            elif k < 0.9:
+                out += [b + 'with x%d as x%d:' % (i, i + 1), b + '    if i%d: x%d = [j for j in x%d if j]' % (i, i + 1, i)]
+            else:
+                out += [b + 'if x%d: continue' % i, b + 'x%d = x%d if i%d else i%d' % (i + 1, i, i, i)]
+    out.append('    ' * depth + 'y = x%d' % depth)
+    for i in reversed(range(depth)):
+        out.append('    ' * (i + 1) + 'z%d = y' % i)
+        if rng.random() < 0.3:
+            out.append('    ' * i + 'else:')
+            out.append('    ' * (i + 1) + 'y = x%d' % i)
+    out.append('y')
+    src = '\n'.join(out) + '\n'
+    last = len(out)
+    inner = depth + 1 + sum(1 for _ in ())     # some line inside; positions are refined by the caller
+    return src, [[last, 1]]
+
+
+def nested_loop_jobs(rng, n):
+    jobs = []
+    for i in range(n):
+        src, poss = gen_nested_loops(rng, depth=3 + i % 4)
+        lines = src.split('\n')
+        # besides the final read: the read of the innermost level and one more identifier end
+        for ln, l in enumerate(lines, 1):
+            if l.strip().startswith('y = x'):
+                poss.append([ln, len(l)])
+                break
+        cand = [(ln, m.end()) for ln, l in enumerate(lines, 1) for m in IDENT.finditer(l) if not keyword.iskeyword(m.group(0))]
+        poss.append(list(rng.choice(cand)))
+        jobs.append({'kind': 'text', 'source': src, 'files': {}, 'positions': poss, 'tag': 'nested-loops', 'filename': 'main.py',
+                     'cpu_limit': NESTED_LOOP_CPU_LIMIT})
+    return jobs
+
+
+# deadline for the nested-loop family: the unmodified tree needs < 0.3 s of CPU for every call on it
+NESTED_LOOP_CPU_LIMIT = 10
 
 
 def gen_project_files(rng):
@@ -882,6 +954,10 @@ SPECIAL_CASES = [
     ('lambda', 'class R(B):\n    f = lambda self: super().|\n'), ('lambda', 'class R:\n    rank = 0\n    f = lambda self: (yield self.|rank)\n'),
     ('lambda', 'class R:\n    rank = 0\n    async def m(self):\n        await self.|rank\n'), ('lambda', 'class R:\n    rank = 0\n    @classmethod\n    def m(cls): cls.|rank\n'),
     ('lambda', 'class R:\n    rank = 0\n    @staticmethod\n    def m(x): x.|rank\n'), ('lambda', 'class R:\n    rank = 0\n    @a.b\n    def m(self): self.|rank\n'),
+    ('typeparam', 'def f[T: in|t](x: T): pass\n'), ('typeparam', 'def f[T: int|](x: T): pass\n'), ('typeparam', 'def f[T|: int](x: T): pass\n'),
+    ('typeparam', 'def f[T](x: T|): pass\n'), ('typeparam', 'class A[T: (int, st|r)]: pass\n'), ('typeparam', 'class A[T: m1.|A](m1.A): pass\n'),
+    ('typeparam', 'type X[T: in|t] = list[T]\n'), ('typeparam', 'type X = in|t\n'), ('typeparam', 'def f[*Ts, **P](x: T|s): pass\n'),
+    ('typeparam', 'class A[T]:\n    x: T|\n    def m[U: T|](self): pass\n'), ('typeparam', 'async def f[T: a.|b](): pass\n'), ('typeparam', 'def f[T: int](x): return T|\n'),
     ('sameline', 'for i in y: print(a|b); ab = 1\n'), ('sameline', 'while c: u|v; uv = 2\n'), ('sameline', 'f = lambda: g|g; gg = 1\n'),
     ('sameline', 'def f(): return g|h; gh = 1\n'), ('sameline', 'def f(): return gh|\ngh = 1\n'), ('sameline', 'ab = 1; a|b\n'), ('sameline', 'for i in y: a|b.x; ab = z\n'),
     ('sameline', 'class A: f = lambda s: B|; B = 1\n'), ('sameline', 'while c: (u|v, uv); uv = 2; uv = 3\n'), ('sameline', 'if c: p = 1\nelse: p = 2\nfor i in y: print(p|, q); p = 3; q = 4\n'),
@@ -1092,8 +1168,9 @@ class Dumper(object):
         t = type(obj)
         if t is _ast.Name:
             if not hasattr(obj, 'flow'):
-                raise Unsupported('Name %r without flow reached by the evaluator' % obj.id)
-            nm = obj.flow.names_at(np(obj)).get(obj.id)
+                nm = None       # a read the analysis did not visit: evaluate answers None (F69)
+            else:
+                nm = obj.flow.names_at(np(obj)).get(obj.id)
             term = 'NRef %s' % self.opt(nm if nm else None)
         elif t is N.AssignedName:
             term = 'NAssigned %d' % self.node(obj.value_node)
@@ -1583,6 +1660,7 @@ def run(ctx):
         'exploration (direct evaluator): every lint/assist/location call of the real code on (a) stdlib+repo files with sampled cursor '
         'positions (identifier ends, after dots, import lines, random, end of file), (b) typing-state mutations of them (line truncated at the '
         'cursor, trailing dot, deleted line, truncated file, return/yield/break/... moved to module or class level, half-typed import), '
+        '(c2) programs of 3-6 nested for/while loops whose bodies branch (if/else, elif, try, with, comprehension), deadline 10 s of CPU per call (the unmodified tree needs < 0.3 s), '
         '(c) generated programs with sibling modules (import / star-import / inheritance cycles, packages; lambdas in class bodies), every position, '
         'a third of them and a sample of positions of every file also as an unsaved buffer (filename=None, worker cwd inside a package), (d) cursor on '
         'builtins, compiled modules, unknown and half-typed module names x 5 cyclic projects x 2 file locations; oracle = statement of C08; '
@@ -1763,6 +1841,7 @@ def run(ctx):
         src = ProgGen(erng).module()
         jobs.append({'kind': 'text', 'source': src, 'files': gen_project_files(erng), 'positions': 'all' if len(src) < 350 else 50,
                      'seed': i, 'tag': 'gen', 'filename': erng.choice(['main.py', 'main.py', 'pkg/main.py']), 'nofile': i % 3 == 0})
+    nl_jobs = nested_loop_jobs(erng, ctx.pick(16, 200))
     # big files first (long pole), then the rest interleaved
     def weight(j):
         if j['kind'] == 'file':
@@ -1777,9 +1856,12 @@ def run(ctx):
     rest = file_jobs[len(file_jobs) // 3:]
     chunks += [rest[i:i + 3] for i in range(0, len(rest), 3)]
     chunks += [text_jobs[i:i + 30] for i in range(0, len(text_jobs), 30)]
+    # one nested-loop program per chunk: on a tree where they are slow every one of them costs two deadlines
+    chunks = [[j] for j in nl_jobs[:32]] + chunks + [nl_jobs[i:i + 8] for i in range(32, len(nl_jobs), 8)]
     res = _run_chunks(ctx, chunks, None, ctx.pick(600, 2400))
     _merge(ctx, res, fails, counts)
-    cov['exploration'] = {'files': len(file_jobs), 'generated_programs': nprog, 'special_cursor_cases': len(_special_jobs()),
+    cov['exploration'] = {'files': len(file_jobs), 'generated_programs': nprog, 'nested_loop_programs': len(nl_jobs),
+                          'nested_loop_cpu_limit_s': NESTED_LOOP_CPU_LIMIT, 'special_cursor_cases': len(_special_jobs()),
                           'positions_per_file': npos, 'mutations_per_file': nmut, 'distinct_failure_signatures': len(fails),
                           'cpu_limit_per_call_s': CALL_CPU_LIMIT}
     ctx.log('exploration: %d calls, %d distinct failure signatures, %.1fs' % (cov['evaluations'], len(fails), time.time() - t0))
